@@ -11,6 +11,8 @@ Judge(c) ==
   CASE c.op = "sl_rt" -> Judge_sl_rt(c)
     [] c.op = "file_rt" -> Judge_file_rt(c)
     [] c.op = "cuts" -> Judge_cuts(c)
+    [] c.op = "file_ind" -> Judge_file_ind(c)
+    [] c.op = "is_avro" -> Judge_is_avro(c)
     [] c.op = "whist" -> Judge_whist(c)
     [] OTHER -> << "H.op=fail" >>
 
